@@ -16,7 +16,7 @@ from .. import fortran as F
 from . import geo_build
 
 UNIVERSE = ('  a 1', '  b 1', '  c 1', '  d 1')
-ROCKPOOL = ('dfalt', 'rock1', 'rock2', 'ROCK3', 'gran4', 'sand5')
+ROCKPOOL = ('dfalt', 'rock1', 'rock2', 'ROCK3', 'gran4', 'sand5', '    2', '    1', '   10')
 LET = 'abcdefghijklmnopqrstuvwxyz'
 
 
@@ -80,8 +80,10 @@ def extract(grid):
     return m
 
 
-def check_structure(grid):
-    """I1-I4 on the real object.  Raises Violation."""
+def check_structure(grid, alias_ok=None):
+    """I1-I4 on the real object.  Raises Violation.  `alias_ok`: rock type names whose blocks
+    may hold an equal-named object other than the registered one (left so by t2grid.__add__ on
+    the unmodified tree; see DESIGN 8.3, probes) - None switches the identity reading of I4 off."""
     # I1 lookups and lists describe the same objects, names unique, keys current
     for what, lst, dct, key in (
             ('block', grid.blocklist, grid.block, lambda o: o.name),
@@ -122,6 +124,11 @@ def check_structure(grid):
         if b.rocktype is None or b.rocktype.name not in grid.rocktype:
             raise Violation('I4', 'block %r has rock type %r which the grid does not register'
                             % (b.name, getattr(b.rocktype, 'name', None)))
+        if alias_ok is not None and b.rocktype.name not in alias_ok and \
+                grid.rocktype[b.rocktype.name] is not b.rocktype:
+            raise Violation('I4.object', 'block %r holds a rock type object named %r that is not '
+                            'the one the grid registers under that name'
+                            % (b.name, b.rocktype.name))
 
 
 def eq(a, b, digits=None):
@@ -301,7 +308,7 @@ class GridMachineBase(Machine):
     def verify(self, what, digits=False):
         ctx = self.ctx
         if not self.PHYSICS:
-            check_structure(self.grid)
+            check_structure(self.grid, getattr(self, 'alias_ok', None))
         got = extract(self.grid)
         compare(self.model, got, self.PHYSICS, digits, what + ': ')
         # equivalent content confirmed: continue from the real object's own representation
@@ -384,6 +391,7 @@ class GridMachineBase(Machine):
                     b.rocktype = extra
             self.geo, self.geo_valid = geo, True
         self.grid = g
+        self.alias_ok = set()
         self.model = extract(g)
         return 'u' if self.universe else 'g'
 
@@ -422,6 +430,13 @@ class GridMachineBase(Machine):
             old = g.connectionlist[ch[0] % len(g.connectionlist)]
             a, b = old.block
             self.ctx.probes['add_connection_replaces'] += 1
+        elif g.connectionlist and ch[2] % 6 == 3 and \
+                tuple(x.name for x in g.connectionlist[ch[0] % len(g.connectionlist)].block)[::-1] \
+                not in self.model.c:
+            # a second connection between two connected blocks, listed the other way round
+            old = g.connectionlist[ch[0] % len(g.connectionlist)]
+            b, a = old.block
+            self.ctx.probes['add_connection_parallel_reversed'] += 1
         elif a is b or (a.name, b.name) in self.model.c:
             return False
         elif (b.name, a.name) in self.model.c and ch[2] % 4 != 3:
@@ -459,6 +474,13 @@ class GridMachineBase(Machine):
             return False
         self.call(lambda: self.grid.add_rocktype(self.tg.rocktype(name)), 'add_rocktype')
         self.model.r.add(name)
+
+    def note_aliases(self):
+        """After a sum of grids: the names whose blocks hold a replaced rock type object."""
+        g = self.grid
+        self.alias_ok = set(getattr(self, 'alias_ok', None) or ()) | set(
+            b.rocktype.name for b in g.blocklist
+            if b.rocktype is not g.rocktype.get(b.rocktype.name))
 
     def aliased(self, name):
         g = self.grid
@@ -763,6 +785,7 @@ class GridMachineBase(Machine):
         self.geo_valid = False
         if any(b.rocktype is not res.rocktype.get(b.rocktype.name) for b in res.blocklist):
             self.ctx.probes['rocktype_alias_after_add'] += 1
+        self.note_aliases()
 
     def op_EMBED(self, ch):
         g = self.grid
@@ -804,6 +827,7 @@ class GridMachineBase(Machine):
             raise Violation('P6', 'embedding changed the total volume from %r to %r'
                             % (total_before, total_after))
         self.ctx.probes['embed'] += 1
+        self.note_aliases()
 
     def op_PERSIST(self, ch):
         """Write through t2data to SimFS, crash, read back into a fresh object, continue there."""
@@ -834,13 +858,20 @@ class GridMachineBase(Machine):
             mesh = (ROOT + 'persist.MESHA', ROOT + 'persist.MESHB')
         self.persist_binary = isinstance(mesh, tuple)
         self.call(lambda: dat.write(path, meshfilename=mesh), 't2data.write')
-        fs.crash()
-        fs.restart()
-        fs.begin_op(2000000)
-        dat2 = self.call(lambda: self.td.t2data(path, meshfilename=mesh), 't2data.read')
+        if not mesh and ch[1] % 3 == 0:
+            # no restart: the program reads the file again into the object it wrote it from
+            fs.begin_op(2000000)
+            dat2 = self.call(lambda: dat.read(path), 't2data.read into the same object')
+            ctx.probes['persist_reread_into_same_object'] += 1
+        else:
+            fs.crash()
+            fs.restart()
+            fs.begin_op(2000000)
+            dat2 = self.call(lambda: self.td.t2data(path, meshfilename=mesh), 't2data.read')
         ctx.probes['persist_mesh_%s' % ('binary' if isinstance(mesh, tuple) else
                                         ('ascii' if mesh else 'infile'))] += 1
         self.grid = dat2.grid
+        self.alias_ok = set()
         self.geo_valid = False
         # names come back in the form one write/read cycle gives them
         mp = {} if self.persist_binary else \
@@ -953,6 +984,7 @@ class _SweepMixin(object):
             g.add_connection(tg.t2connection([g.block[UNIVERSE[a]], g.block[UNIVERSE[b]]], 1,
                                              [0.5 + a, 0.25 + b], 2.0 + a, -1.0 if a < b else 0.5))
         self.grid, self.geo, self.geo_valid = g, None, False
+        self.alias_ok = set()
         self.model = extract(g)
         return v
 
